@@ -14,7 +14,10 @@ from sigma.exceptions import (
     SigmaTransformationError,
 )
 from sigma.types import (
+    SigmaBool,
     SigmaExpansion,
+    SigmaNull,
+    SigmaNumber,
     SigmaString,
     SigmaType,
     SigmaFieldReference,
@@ -407,9 +410,14 @@ class ValueTransformation(DetectionItemTransformation):
                         # This is only possible if no value modifier has to be applied again to
                         # the serialized values while loading them (e.g. contains would add
                         # wildcards to the new values).
+                        # It also requires values of types that are written without a modifier (a
+                        # regular expression would be written as its plain pattern text).
                         if all(
                             issubclass(modifier, SigmaListModifier) for modifier in r.modifiers
-                        ) and not any(isinstance(value, SigmaExpansion) for value in r.value):
+                        ) and all(
+                            type(value) in (SigmaString, SigmaNumber, SigmaBool, SigmaNull)
+                            for value in r.value
+                        ):
                             r.original_value = r.value.copy()
                         else:
                             r.disable_conversion_to_plain()
